@@ -6,6 +6,7 @@
 #pragma once
 #include <unistd.h>
 #include <cerrno>
+#include <cfenv>
 #include <csignal>
 #include <cstdint>
 #include <cstdio>
@@ -93,7 +94,11 @@ inline int run(const std::function<void()> & reset, const std::function<std::str
     // ambient state the library must not depend on: `errno` may hold anything an earlier libm / libc call of the process left
     // there (e.g. ERANGE after a log(0) elsewhere). It is set to ERANGE / EDOM / 0 in turn before every op — results that change
     // with it are a correspondence disagreement or a probe failure (seeded change c03c guards on a stale `errno == ERANGE`).
-    { static unsigned long opCounter = 0; static const int ambient[3] = {ERANGE, EDOM, 0}; errno = ambient[opCounter++ % 3]; }
+    { static unsigned long opCounter = 0; static const int ambient[3] = {ERANGE, EDOM, 0}; errno = ambient[opCounter++ % 3];
+      // likewise the sticky IEEE status flags of the thread (set by ANY earlier division by zero / invalid operation / overflow /
+      // inexact result anywhere in the process): raised on two ops out of three, cleared on the third (seeded change c01e returns NaN
+      // when `fetestexcept(FE_DIVBYZERO | FE_INVALID)` is set at the end of toWGS84 without having cleared the flags on entry)
+      if (opCounter % 3 != 0) { std::feraiseexcept(FE_DIVBYZERO | FE_INVALID | FE_OVERFLOW | FE_UNDERFLOW | FE_INEXACT); } else { std::feclearexcept(FE_ALL_EXCEPT); } }
     try { out = handle(t); }
     catch (const BadOp &) { out = "bad-op"; }
     catch (const std::exception & e) { out = std::string("exception"); }
